@@ -204,3 +204,40 @@ func retDescs(fn *ssa.Function, idx int) []string {
 	}
 	return out
 }
+
+// argN returns argument k of a call, counting the receiver of an interface
+// method call as argument 0 (as static method calls do).
+func argN(cc *ssa.CallCommon, k int) ssa.Value {
+	if cc.IsInvoke() {
+		if k == 0 {
+			return cc.Value
+		}
+		k--
+	}
+	if k < len(cc.Args) {
+		return cc.Args[k]
+	}
+	return nil
+}
+
+// reachWithoutStable is reachWithout with path pruning on stable atoms.
+func reachWithoutStable(from Point, isTarget func(ssa.Instruction) bool, alts []LitPat, stable []string) *Witness {
+	w := &Walker{
+		Visit: func(i ssa.Instruction) int {
+			if isTarget(i) {
+				return wHit
+			}
+			return wContinue
+		},
+		Edge: func(l Lit) bool {
+			for _, a := range alts {
+				if a.match(l) {
+					return false
+				}
+			}
+			return true
+		},
+		Stable: stable,
+	}
+	return w.Run(from)
+}
